@@ -54,6 +54,9 @@ func (e *SpecEnv) collectGoals(x SExpr, hyps []Term, out *[]subGoal) {
 			ne := *e
 			ne.vars = vars
 			ne.f = nil
+			if pk := e.vc.eng.pkgByPath(p.PkgPath); pk != nil {
+				ne.pkg = pk
+			}
 			ne.collectGoals(p.Body, hyps, out)
 			return
 		}
